@@ -369,6 +369,11 @@ func Gen(prop, tier string, seed, run uint64) Plan {
 				if r.IntN(3) == 0 {
 					def = "id:-1"
 				}
+				if (prop == "C11" || prop == "C12" || prop == "C06") && r.IntN(4) == 0 {
+					// the same set of ids written in another way than a plain list
+					a, b := r.IntN(nStreams+1), r.IntN(nStreams+1)
+					def = []string{fmt.Sprintf("(id:%d)", a), fmt.Sprintf("id:%d or id:%d", a, b), fmt.Sprintf("id:%d:%d", min(a, b), max(a, b)), fmt.Sprintf("(id:%d) or (id:%d)", a, b), fmt.Sprintf("id:%d id:%d:", a, min(a, b))}[r.IntN(5)]
+				}
 			}
 			if invalid && r.IntN(6) == 0 {
 				def = []string{"tag:nonexistent", refName(name), "data:\"(\"", "ftime:-1h:", "sport:80 group:\"x\"", "id:", "", "((("}[r.IntN(8)]
